@@ -10,7 +10,7 @@ theorem step_cases (c : Cfg) (r : Run) (m : Msg) :
     (∃ a, step c r m = .acceptAbort a ∧ firstHello c r.st m.kind = true) ∨
     step c r m = .buffer m.kind ∨
     (step c r m = .acceptAbort .unexpected_message ∧ m.kind = .ccs) := by
-  rcases step_shape c r m with ⟨p, hs, _⟩ | ⟨hs, _⟩ | ⟨a, hs⟩ | ⟨hs, _, _⟩
+  rcases step_shape c r m with ⟨p, hs, _⟩ | ⟨hs, _⟩ | ⟨a, hs⟩ | ⟨hs, _, _, _⟩
   · rcases stepK_plus c r.st r.outstanding m.kind p with h | h | h
     · exact Or.inl (hs.trans h)
     · exact Or.inr (Or.inl ⟨_, hs.trans h⟩)
